@@ -1,8 +1,8 @@
 SPECIFICATION MCSpec
 CONSTANTS
   MODE = "pads"
-  PADS_AB = {0, 1, 2, 255, 256, 510, 511}
-  PADS_CD = {0, 511}
+  PADS_AB = {0, 1, 256, 511}
+  PADS_CD = {0}
   FULLFR = TRUE
 INVARIANT Inv
 CHECK_DEADLOCK TRUE
